@@ -5,8 +5,8 @@
     the coinswap module does not contain them).  [abs] renames denominations by an injective, non-negative
     numbering [rk] (the byte-order ranks of the genesis-level model), builds the pool records the keeper
     stores (id "pool-<denom>", standard denom, escrow address derived from the lpt denom) and sorts them;
-    the lpt index is the one [setPool] writes.  The model has no parameter-update message: the parameters
-    are those of the initial state, assumed to pass [Params.Validate]. *)
+    the lpt index is the one [setPool] writes.  The model has no parameter-update message: the stored
+    parameters pass [Params.Validate] initially and after every [MsgUpdateParams] ([ParOk], proved). *)
 From Irismod Require Import Genesis.Sort.
 From Irismod Require Coinswap.Model Coinswap.ProofsSpec Coinswap.Proofs Coinswap.ProofsValue Genesis.Coinswap Genesis.CoinswapProofs.
 
@@ -53,7 +53,17 @@ Proof.
     eapply Dense_same; eassumption.
   - destruct (MS.exec_send_spec _ _ _ _ _ _ _ E) as (_ & _ & _ & _ & R). eapply Dense_same; eassumption.
   - inversion E; subst. exact D.
+  - destruct (MS.exec_update_params_spec _ _ _ _ _ E) as (_ & _ & _ & _ & _ & R & _). eapply Dense_same; eassumption.
 Qed.
+
+(** the stored parameters always pass Params.Validate: they do initially and [MsgUpdateParams] only stores valid ones *)
+Definition ParOk (s : M.state) : Prop := M.params_valid (M.par s) = true.
+Lemma ParOk_step s m : ParOk s -> ParOk (M.step s m).
+Proof.
+  unfold ParOk. intros Hp. destruct (MP.step_par s m) as [E|(p & _ & Hv & E)]; rewrite E; assumption.
+Qed.
+Lemma ParOk_run ms : forall s, ParOk s -> ParOk (M.run s ms).
+Proof. unfold M.run. induction ms as [|m ms IH]; intros s Hp; simpl; [exact Hp|]. apply IH. apply ParOk_step. exact Hp. Qed.
 
 Lemma Dense_run ms : forall s, Dense s -> Dense (M.run s ms).
 Proof. unfold M.run. induction ms as [|m ms IH]; intros s D; simpl; [exact D|]. apply IH. apply Dense_step. exact D. Qed.
@@ -97,6 +107,13 @@ Section Rk.
     revert a. induction n as [|n IH]; intros a; simpl; [lia|]. rewrite IH. lia.
   Qed.
 
+  Lemma params_valid_ok p : M.params_valid p = true -> G.params_ok (abs_params p) = true.
+  Proof.
+    unfold M.params_valid, G.params_ok, abs_params. cbn [G.p_fee G.p_pcf G.p_tax G.p_uni snd].
+    unfold G.one_dec, Base.Dec.P18. intros H. repeat (apply andb_true_iff in H; destruct H as [H ?]).
+    repeat (apply andb_true_iff; split); assumption.
+  Qed.
+
   Lemma NoDup_map_on {A B} (g : A -> B) (l : list A) :
     NoDup l -> (forall x y, In x l -> In y l -> g x = g y -> x = y) -> NoDup (map g l).
   Proof.
@@ -109,11 +126,11 @@ Section Rk.
 
   (** every state reached by a history of the model satisfies the genesis-level invariant *)
   Theorem reachable_coinswap (s0 : M.state) (ms : list M.msg) :
-    MV.Inv s0 -> Dense s0 -> G.params_ok (abs_params (M.par s0)) = true -> M.seq (M.run s0 ms) < G.two64 ->
+    MV.Inv s0 -> Dense s0 -> ParOk s0 -> M.seq (M.run s0 ms) < G.two64 ->
     G.invb (abs (M.run s0 ms)) = true.
   Proof.
-    intros I0 D0 Hp Hlt. pose proof (MV.Inv_run ms s0 I0) as I. pose proof (Dense_run ms s0 D0) as [D1 D2].
-    pose proof (MP.run_par ms s0) as Hpar.
+    intros I0 D0 Hp0 Hlt. pose proof (MV.Inv_run ms s0 I0) as I. pose proof (Dense_run ms s0 D0) as [D1 D2].
+    pose proof (ParOk_run ms s0 Hp0) as Hpv.
     set (s := M.run s0 ms) in *. destruct I as [_ _ _ Ifst Isnd Irng Iseq _].
     pose proof (keys_abs_nodup s Ifst) as Hnd.
     assert (Hin : forall e, In e (abs_pools s) <-> In e (map abs_pool (M.pools s))) by (intros e; apply In_osort; exact Hnd).
@@ -147,7 +164,7 @@ Section Rk.
         + left. apply Hlpts. rewrite D1. apply In_ints. simpl length. lia. }
     unfold G.invb. cbn [G.pools G.std G.seq G.lpt_index G.prm abs].
     rewrite Hsorted, Hkey, Hstd, Hnodup, Hok, Hmax, Prelude.eqb_refl. cbn [andb].
-    rewrite Hpar, Hp. rewrite !andb_true_r. apply andb_true_iff. split; lia.
+    rewrite (params_valid_ok _ Hpv). rewrite !andb_true_r. apply andb_true_iff. split; lia.
   Qed.
 End Rk.
 
@@ -159,7 +176,7 @@ Section Histories.
   Variables (s0 : M.state) (ms : list M.msg).
   Hypothesis I0 : MV.Inv s0.
   Hypothesis D0 : Dense s0.
-  Hypothesis Hp : G.params_ok (abs_params rk (M.par s0)) = true.
+  Hypothesis Hp : ParOk s0.
   Hypothesis Hlt : M.seq (M.run s0 ms) < G.two64.
 
   Let inv : G.invb (abs rk (M.run s0 ms)) = true := reachable_coinswap rk rk_inj rk_nonneg s0 ms I0 D0 Hp Hlt.
@@ -182,5 +199,5 @@ Proof. unfold ex_rk. destruct (0 <=? a) eqn:A; lia. Qed.
 Example dense_example : Dense (M.mkState [] [] [(3, 1); (2, 2)] 3 0 (M.mkParams 3000000000000000 0 400000000000000000 0 5000)).
 Proof. split; reflexivity. Qed.
 Example params_example :
-  G.params_ok (abs_params ex_rk (M.mkParams 3000000000000000 2000000000000000 400000000000000000 0 5000)) = true.
+  ParOk (M.mkState [] [] [] 1 0 (M.mkParams 3000000000000000 2000000000000000 400000000000000000 0 5000)).
 Proof. vm_compute. reflexivity. Qed.
